@@ -22,8 +22,8 @@ REGISTRY = {
                      [(REF, 'randmio_und_connected#reject', None, None), (REF, 'latmio_und_connected#reject', None, None)], trusted=PYVC_TRUSTED,
                 technique='deductive (pyvc+z3) for lattice cost, mask and input rejection; connectivity preservation bounded only'),
     'C17': dict(level='proof', bounded='checks.bounded.C17',
-                pyvc=[(UTL, k, None, None) for k in ['threshold_absolute', 'binarize', 'invert', 'normalize', 'teachers_round']], trusted=PYVC_TRUSTED,
-                assumptions=['threshold_proportional and the weight_conversion dispatch are covered by the bounded stand-in only'],
+                pyvc=[(UTL, k, None, None) for k in ['threshold_absolute', 'binarize', 'invert', 'normalize', 'teachers_round', 'threshold_proportional']], trusted=PYVC_TRUSTED,
+                assumptions=['threshold_proportional: diagonal, symmetry, kept-entries and copy clauses proved; the exact-count and strongest-kept clauses and the weight_conversion dispatch are bounded only'],
                 technique='deductive (pyvc+z3) for threshold_absolute, binarize, invert, normalize, teachers_round incl. copy-flag identity; bounded stand-in for threshold_proportional, weight_conversion'),    'C13': dict(level='proof', bounded='checks.bounded.C13', extra_proved=['checks.static_proved.c13'],
                 trusted=['engine/pyframe/frame.py (may-alias analysis) and its fresh/view/mutating tables for numpy calls', 'numpy/scipy functions not listed as mutating do not write to their arguments',
                          'no mutation through eval/exec/C extensions; decorators transparent'],
@@ -34,7 +34,7 @@ REGISTRY = {
                 technique='static effect obligations (no global-random use, all draws through get_rng(seed)\'s generator, nested calls receive the generator, no other nondeterminism source) over every seed-accepting function; dynamic cross-check (bounded)'),    'C15': dict(extra_proved=['checks.lean_check.lean'], level='proof', bounded='checks.bounded.C15', pyvc=[('contracts.core_c15', k, None, None) for k in ['kcore_bu', 'kcore_bd', 'score_wu']],
                 trusted=PYVC_TRUSTED + ['counting lemmas lemma_masked_degree / lemma_degree_monotone (code-independent; engine/lean)', 'callee contracts of degrees_und / degrees_dir / strengths_und (column/row counts and sums)'],
                 assumptions=['peel=True outputs and kcoreness_centrality_bu/_bd are covered by the bounded stand-in only'],
-                technique='deductive (pyvc+z3): ghost alive-set invariant, maximality against an arbitrary (Skolem) node set meeting the bound; bounded subset-enumeration oracle for coreness and peel outputs'),    'C02': dict(extra_proved=['checks.lean_check.lean'], level='proof', bounded='checks.bounded.C02', pyvc=[('contracts.modularity', k, None, r'C07-') for k in ['modularity_finetune_und', 'modularity_finetune_dir']],
+                technique='deductive (pyvc+z3): ghost alive-set invariant, maximality against an arbitrary (Skolem) node set meeting the bound; bounded subset-enumeration oracle for coreness and peel outputs'),    'C02': dict(extra_proved=['checks.lean_check.lean', 'checks.lean_extract.lean_extracted'], level='proof', bounded='checks.bounded.C02', pyvc=[('contracts.modularity', k, None, r'C07-') for k in ['modularity_finetune_und', 'modularity_finetune_dir']],
                 trusted=PYVC_TRUSTED + ['modularity lemmas of engine/pyvc/core.py (gain lemma Qraw_move+nm_modularity, q_from_aggregate, relabelling invariance, node-to-module sum identities): code-independent, Lean'],
                 assumptions=['products/quotients of two symbolic reals are kept uninterpreted (umul/udiv) in the shape the code computes them; only sign facts of udiv are used',
                              'all other detectors (Louvain family, signed variants, probtune, spectral modularity_und/_dir, community_louvain) are covered by the bounded stand-in only'],
